@@ -29,6 +29,14 @@ def get_all_edges(self, G, u0, edge):
     return es
 ''']
 
+REF_HASHMAP = ['''
+def get_hashmap(self, G, es):
+    hashmap_es = {}
+    for e in es:
+        hashmap_es[G.edges[e][NetworkNames.TOPOLOGY]] = hashmap_es.get(G.edges[e][NetworkNames.TOPOLOGY], []) + [e]
+    return hashmap_es
+''']
+
 REF_OTHER = ['''
 def get_other_vertex(self, u, e):
     if e[0] == u:
@@ -312,7 +320,17 @@ def run(ctx):
                 elif isinstance(d, ast.Compare) and len(d.ops) == 1 and isinstance(d.ops[0], (ast.Is, ast.IsNot)) and isinstance(d.left, ast.Name) and isinstance(d.comparators[0], ast.Name):
                     identity.append((frozenset((txt(d.left), txt(d.comparators[0]))), d))
                 elif isinstance(d, ast.Call) and isinstance(d.func, ast.Attribute) and d.func.attr == "has_edge":
-                    pass
+                    if not dp:
+                        o6.violated(su, r_, f"the pairing is rejected when the prospective edge `{t}` is ABSENT: swaps that would duplicate an existing edge go through, "
+                                            "valid ones are refused")
+                elif isinstance(d, ast.BoolOp) and isinstance(d.op, ast.And) and dp and all(isinstance(v_, ast.Call) and isinstance(v_.func, ast.Attribute) and v_.func.attr == "has_edge" for v_ in d.values):
+                    o6.violated(su, r_, f"the pairing is rejected only when ALL of `{t}` already exist: a swap that duplicates one existing edge goes through (multi-edge collapses, an edge is lost)")
+                elif isinstance(d, ast.Compare) and len(d.ops) == 1 and isinstance(d.ops[0], (ast.Eq, ast.NotEq)) and "MOTIF_IDS" in t:
+                    if dp != isinstance(d.ops[0], ast.Eq):
+                        o6.violated(su, r_, f"corners are rejected when their motif ids DIFFER (`{t}`): only swaps inside one motif are allowed, which tears the motif apart")
+                elif isinstance(d, ast.Compare) and len(d.ops) == 1 and isinstance(d.ops[0], (ast.Eq, ast.NotEq)) and ("len(" in t or ".keys()" in t):
+                    if dp != isinstance(d.ops[0], ast.NotEq):
+                        o6.violated(su, r_, f"corners are rejected when `{t}` says they MATCH: only corners of different shape are paired, per-topology degrees are not preserved")
                 elif "len(" in t or ".keys()" in t or "MOTIF_IDS" in t:
                     pass
                 else:
@@ -534,3 +552,4 @@ def run(ctx):
     with ctx.obligation("C11.10", "corner = all edges at the focal vertex with the drawn edge's motif id, oriented (focal, other)", floor=2) as o:
         conform(o, prog.method(ci, "get_all_edges"), REF_GET_ALL_EDGES, "get_all_edges")
         conform(o, prog.method(ci, "get_other_vertex"), REF_OTHER, "get_other_vertex")
+        conform(o, prog.method(ci, "get_hashmap"), REF_HASHMAP, "get_hashmap groups the corner's edges by topology (every edge, under its own topology)")
